@@ -26,7 +26,7 @@ def run(tier, seed, replay=None):
     parts = [EventPart("evt", report_crashes=False)] + atomic_parts()
     return run_check(
         "C01", tier, seed,
-        ["UnifexModel.Props.C01", "UnifexModel.Props.C01_Atomic", "UnifexModel.Props.C01_AtomicSW"], parts,
+        ["UnifexModel.Props.C01", "UnifexModel.Props.C01_Atomic", "UnifexModel.Props.C01_AtomicInst", "UnifexModel.Props.C01_AtomicSW"], parts,
         rule="(event level) generated sender expressions + event scripts (see C05) on the real library with a counting root receiver: completion before start, second completion, "
              "or no completion at quiescence (all leaves drained) are monitor violations; every trace is also compared with the Lean calculus. "
              "(schedule level) the real when_all/when_all_range/stop_when with manual leaves completed from 1-3 threads plus a stop thread under the controlled scheduler "
@@ -40,7 +40,8 @@ def run(tier, seed, replay=None):
         explanation="Theorems (Props/C01): root_at_most_once (any expression, any leaf script, ANY event sequence incl. nonsense events: at most one completion signal), "
                     "root_silent_before_start (no output and no signal before start / if never started), built on signal_finishes + finished_inert + idle_silent for every algorithm clause. "
                     "Props/C01_Atomic (when_all/when_all_range atomic protocol, ALL N >= 1, all configurations, all schedules, by invariant induction): deliver_at_most_once, elected_once, "
-                    "refcount_counts_owners, deliver_only_after_all_children, deliver_happens, exactly_once_at_end; instances by kernel reflection (safe = also deadlock-freedom and result "
-                    "precedence receiver-stop > first error/done > values): wa2_race, wa1_stop, wa2_valinl_stop, wa3_fail_inl; Props/C01_AtomicSW: stop_when instances sw_race, sw_mix, "
+                    "refcount_counts_owners, deliver_only_after_all_children, deliver_happens, exactly_once_at_end, result_precedence (receiver-stop > first error/done > values), "
+                    "no_result_before_signal; Props/C01_AtomicInst, instances by kernel reflection (safe = also deadlock-freedom of the blocking deregistrations): wa2_race, wa1_stop, "
+                    "wa2_valinl_stop, wa3_fail_inl; Props/C01_AtomicSW: stop_when instances sw_race, sw_mix, "
                     "sw_trigger, sw_src_err (exactly once, after both children, result = source's). Scenarios wa2_stop, wa3_fail, war2_stop, sw_stop are tied to the same models (trace inclusion) "
                     "but too large for kernel reflection; for when_all they are covered by the parametric theorems.")
